@@ -20,7 +20,7 @@ def _worker(task):
     for k in ("law", "expected", "disjoint", "flag", "variants"):
         if k in opts:
             ev[k] = opts[k]
-    tool_dec = None
+    io_only = False
     for item in plan:
         kind = item["kind"]
         hl = item.get("helper", "all")
@@ -35,6 +35,8 @@ def _worker(task):
                 run["sw"] = {k: sw[k] for k in ("raised", "D", "merged") if k in sw}
             ev["runs"].append(run)
             continue
+        if kind == "side_io" and not io_only:
+            continue        # separate input/output strategies only decide source/output/attachment conflicts
         with helper(hl):
             if kind == "swapped":
                 run, merged, dec = run_merge(base, remote, local, args, name, extra=extra,
@@ -47,7 +49,9 @@ def _worker(task):
                 sw, _, _ = run_merge(base, remote, local, args, name + "|sw", validate=False)
                 run["sw"] = {k: sw[k] for k in ("raised", "D", "merged") if k in sw}
         if kind == "tool" and "raised" not in run:
-            ev["toolD"] = run["D"]
+            ev["toolD" if args.ignore_transients else "toolDnoT"] = run["D"]
+            if args.ignore_transients:
+                io_only = all(_io_path(d["common_path"], d) for d in run["D"] if d["conflict"])
         ev["runs"].append(run)
     return ev
 
@@ -75,6 +79,16 @@ class Events(list):
 def _worker_s(task):
     ev = _worker(task)
     return ev["tid"], [r["name"] for r in ev["runs"]], json.dumps(ev, separators=(",", ":"))
+
+
+def _io_path(path, dec):
+    """does the (encoded) decision sit inside a cell's source, outputs or attachments?"""
+    keys = [st["s"] for st in path if st["k"] == "s"]
+    for d in (dec["local_diff"], dec["remote_diff"]):
+        if len(d) == 1 and d[0]["op"] == "patch" and d[0]["kt"] == "s":
+            keys = keys + [d[0]["key"]]
+            break
+    return len(keys) >= 2 and keys[0] == "cells" and keys[1] in ("source", "outputs", "attachments")
 
 
 def generate(tasks, jobs=None):
